@@ -22,6 +22,9 @@ ROUTER_SRC = """
 # which database a model lives on, per case: {(app_label, model_name_lower): alias}; models that
 # are not listed get no opinion (Django's default: allowed everywhere)
 ALLOW = {}
+# what db_for_read / db_for_write answer for every model without a route (None: no opinion; an alias: the
+# catch-all `return 'default'` that ends the primary/replica router of the Django documentation)
+CATCH_ALL = [None]
 
 
 class Router(object):
@@ -35,23 +38,77 @@ class Router(object):
     allow_syncdb = allow_migrate
 
     def db_for_read(self, model, **hints):
-        return ALLOW.get((model._meta.app_label, model._meta.model_name))
+        return ALLOW.get((model._meta.app_label, model._meta.model_name), CATCH_ALL[0])
 
     db_for_write = db_for_read
+
+    def allow_relation(self, obj1, obj2, **hints):
+        # as in the documented primary/replica router: with a catch-all, relations between its databases are fine
+        return True if CATCH_ALL[0] is not None else None
 """
 
 
-def set_routes(mapping):
+def set_routes(mapping, catch_all=None):
     import vrouter
     vrouter.ALLOW.clear()
     vrouter.ALLOW.update(mapping)
+    vrouter.CATCH_ALL[0] = catch_all
 
 
-def setup(routers=()):
+# an app that has been on Django migrations from its first release: a `migrations` package on disk and no
+# `evolutions` package (only installed in processes that ask for it, see tools/vlib/c17_worker.py)
+EXTRA = []
+MAPP_MIGRATIONS = {
+    '0001_initial': '''
+from django.db import migrations, models
+
+
+class Migration(migrations.Migration):
+    initial = True
+    dependencies = []
+    operations = [
+        migrations.CreateModel(
+            name='Book',
+            fields=[
+                ('id', models.AutoField(auto_created=True, primary_key=True, serialize=False, verbose_name='ID')),
+                ('title', models.CharField(max_length=50, null=True)),
+            ],
+            options={'db_table': 'mapp_book'},
+        ),
+    ]
+''',
+    '0002_book_pages': '''
+from django.db import migrations, models
+
+
+class Migration(migrations.Migration):
+    dependencies = [('mapp', '0001_initial')]
+    operations = [
+        migrations.AddField(model_name='book', name='pages', field=models.IntegerField(null=True)),
+    ]
+''',
+}
+MAPP_SPEC = {'id': 'mapp', 'models': [{'name': 'Book', 'table': 'mapp_book', 'unique_together': [],
+                                        'index_together': [], 'indexes': [], 'constraints': [], 'fields': [
+    {'name': 'id', 'type': 'AutoField', 'attrs': {'primary_key': True}, 'related': None},
+    {'name': 'title', 'type': 'CharField', 'attrs': {'max_length': 50, 'null': True}, 'related': None},
+    {'name': 'pages', 'type': 'IntegerField', 'attrs': {'null': True}, 'related': None}]}]}
+
+
+def setup(routers=(), migration_app=False):
     global _ready
     if _ready:
         return
     d = dj.scratch_dir()
+    if migration_app:
+        pkg = os.path.join(d, 'mapp')
+        os.makedirs(os.path.join(pkg, 'migrations'), exist_ok=True)
+        for fn in ('__init__.py', 'models.py', os.path.join('migrations', '__init__.py')):
+            open(os.path.join(pkg, fn), 'w').close()
+        for name, src in MAPP_MIGRATIONS.items():
+            with open(os.path.join(pkg, 'migrations', name + '.py'), 'w') as f:
+                f.write(src)
+        EXTRA.append('mapp')
     for label in APPS:
         pkg = os.path.join(d, label)
         os.makedirs(os.path.join(pkg, 'evolutions'), exist_ok=True)
@@ -62,7 +119,7 @@ def setup(routers=()):
     with open(os.path.join(d, 'vrouter.py'), 'w') as f:
         f.write(ROUTER_SRC)
     sys.path.insert(0, d)
-    dj.setup(extra_apps=APPS, routers=['vrouter.Router'] + list(routers))
+    dj.setup(extra_apps=APPS + EXTRA, routers=['vrouter.Router'] + list(routers))
     _ready = True
 
 
@@ -74,7 +131,7 @@ def install_models(spec):
     """(Re)define the model classes of the synthetic apps from a spec (global app registry)."""
     from django.apps import apps
     from django.db import models
-    for label in APPS:
+    for label in APPS + EXTRA:
         apps.all_models[label].clear()
     apps.clear_cache()
     out = {}
